@@ -114,7 +114,7 @@ def names_of(mol):
     return [(a.name, a.resname) for a in mol]
 
 
-def one_alignment(start, end, eS, eE, kw, factor, seed, observe=True, reassign='', via_manager=None):
+def one_alignment(start, end, eS, eE, kw, factor, seed, observe=True, reassign='', via_manager=None, tty=False):
     """run a real alignment; -> (events, final positions digest)"""
     import gaddlemaps._alignment as A
     import gaddlemaps._backend as B
@@ -198,9 +198,13 @@ def one_alignment(start, end, eS, eE, kw, factor, seed, observe=True, reassign='
         return out
 
     A.minimize_molecules = wrapped
+    class _Terminal(io.StringIO):
+        def isatty(self):
+            return True
     np.random.seed(seed)
     try:
-        with contextlib.redirect_stdout(io.StringIO()):
+        # the progress output goes to a pipe / file, or to something that says it is a terminal: the result is the same
+        with contextlib.redirect_stdout(_Terminal() if tty else io.StringIO()):
             if man is not None:
                 nm = start.name
                 defo = {'DEC': (0, 1, 2)}
@@ -283,7 +287,8 @@ def run_case(tid, seed, cfgcls, workdir, thorough):
             via = (os.path.join(d_, start.name + '.gro'), os.path.join(d_, start.name + '.itp'))
         meta['via_manager'] = bool(via)
         ev, dig = one_alignment(start, end, eS, eE, kw, factor, seed % (2 ** 32), reassign=reassign, via_manager=via)
-        _ev2, dig2 = one_alignment(start, end, eS, eE, kw, factor, seed % (2 ** 32), observe=False, reassign=reassign, via_manager=via)
+        _ev2, dig2 = one_alignment(start, end, eS, eE, kw, factor, seed % (2 ** 32), observe=False, reassign=reassign, via_manager=via,
+                                   tty=True)
         ev.append({'op': 'Repeat', 'same': bool(dig == dig2)})
     except ScheduleExhausted:
         return None
